@@ -173,6 +173,20 @@ def run_case(kind, params):
         for b in params["bufs"]:
             r = runner(frame, pattern, peaks, b=b, upsample=us)
             msgs += compare_outputs(base, r, range(n), range(n), f"buf_count={b} vs {n}", us)
+        # the frame and the peak list are input, not scratch space: read-only arrays, a column-major frame and a peak list that is a
+        # view into a wider table give the same outputs
+        fro, pro = frame.copy(), peaks.copy()
+        fro.setflags(write=False)
+        pro.setflags(write=False)
+        tab = np.zeros((n, 5), dtype=peaks.dtype)
+        tab[:, 1::2][:, :2] = peaks
+        for what, f_, p_ in (("read-only frame and peak list", fro, pro),
+                             ("column-major frame, peak list as a strided view", np.asfortranarray(frame), tab[:, 1::2][:, :2])):
+            try:
+                r = runner(f_, pattern, p_, b=params["bufs"][-1], upsample=us)
+                msgs += compare_outputs(base, r, range(n), range(n), what, us)
+            except Exception as e:      # noqa: BLE001
+                msgs.append(f"{what}: raised {type(e).__name__}: {e}")
         perm = np.asarray(params["perm"])
         r = runner(frame, pattern, peaks[perm], b=params["bufs"][0], upsample=us)
         msgs += compare_outputs(base, r, perm, range(n), "permuted peak list", us)
